@@ -257,6 +257,8 @@ func Catalogue() []Entry {
 			d := GenSDRRepoInfo().Draw(t, "repoInfo")
 			b.Data.Repo.Info = d
 			b.Data.Repo.AddTS, b.Data.Repo.EraseTS = d.AddTS, d.EraseTS
+			// the record count served is the repository's: make it this entry's own
+			b.Data.Repo.Records = make([]simbmc.Record, rapid.IntRange(0, 4).Draw(t, "records"))
 			d.Count = uint16(len(b.Data.Repo.Records))
 			return withRemake(func() *Call {
 				c := &ipmi.GetSDRRepositoryInfoCmd{}
